@@ -92,6 +92,27 @@ def gen(chk, tier):
         seal("aad_len_16bit", key, rb(rng, 12), rb(rng, al), rb(rng, 7))
     for tl in ([] if q else [65535, 65536, 65536 + 21, 65536 + 256, 131072 + 3]):
         seal("text_len_16bit", key, rb(rng, 12), rb(rng, 3), rb(rng, tl))
+    # (8) sessions: ONE AEAD object (and a second one on another key, interleaved) used for a sequence of calls of
+    # mixed length classes - long then short, 4-way then 1-way GHASH, 12-byte then long nonces - so that anything a
+    # call leaves behind (object or package-level scratch, cached powers of H, counters) meets a different shape
+    shapes = [(12, 0, 0), (12, 0, 1), (12, 5, 15), (12, 16, 16), (12, 13, 17), (12, 0, 64), (12, 130, 100), (12, 64, 255),
+              (12, 3, 256), (12, 0, 300), (16, 5, 33), (1, 0, 7), (128, 20, 129), (300, 1, 2), (12, 257, 0), (12, 0, 1024)]
+    for si in range(6 if q else 200):
+        sc[0] += 1
+        k = sc[0]
+        cmds.append(dict(sc=k, op="scenario", cls="session"))
+        keys = {"a": rb(rng, 16), "b": rb(rng, 16)}
+        ts = rng.choice([16, 16, 12])
+        made = set()
+        for ci in range(8 if q else 12):
+            hname = rng.choice(["a", "a", "b"])
+            (nl, al, pl) = rng.choice(shapes)
+            if ("%s%d" % (hname, nl)) not in made:          # one object per (key, nonce size)
+                made.add("%s%d" % (hname, nl))
+                cmds.append(dict(sc=k, op="gcm.aead", h="%s%d" % (hname, nl), key=keys[hname], noncesize=nl, tagsize=ts,
+                                 path="asm"))
+            cmds.append(dict(sc=k, op="gcm.seal", h="%s%d" % (hname, nl), nonce=rb(rng, nl), aad=rb(rng, al), pt=rb(rng, pl),
+                             prefix=[], spare=-1, alias="none", repeat=False, j="v%d" % ci))
     # (7) seeded random, several keys
     for _ in range(20 if q else 1500):
         k2 = rb(rng, 16)
